@@ -534,7 +534,11 @@ class Flow:
             if how[0] == "param" or how[0] == "other":
                 alts.append(copy.deepcopy(n))
             elif how[0] == "assign":
-                alts.append(self.expand(how[1], d, depth - 1, st))
+                built = self._loop_built(nid, d, node) if isinstance(n, ast.Name) else None
+                if built is not None:
+                    alts.append(self._expand_comp(built, d, depth - 1, st))
+                else:
+                    alts.append(self.expand(how[1], d, depth - 1, st))
             elif how[0] == "unpack":
                 v = self.expand(how[1], d, depth - 1, st)
                 for i in how[2]:
@@ -579,6 +583,102 @@ class Flow:
                 if not clobber:
                     return t, bool(lab)
         return None
+
+    def _loop_built(self, name, defnode, use):
+        """`L = []` (or `{}`) filled by append / item assignment inside one `for` loop between the definition and the use is
+        returned as the equivalent comprehension (loop <-> comprehension is a behaviour-preserving rewrite); None otherwise."""
+        how = self._defs[defnode].get(name)
+        if not how or how[0] != "assign":
+            return None
+        init = how[1]
+        is_list = (isinstance(init, ast.List) and not init.elts) or (isinstance(init, ast.Call) and call_name(init) == "list" and not init.args)
+        is_dict = (isinstance(init, ast.Dict) and not init.keys) or (isinstance(init, ast.Call) and call_name(init) in ("dict", "OrderedDict") and not init.args and not init.keywords)
+        if not (is_list or is_dict):
+            return None
+        sites = []          # (kind, payload, for_stack, cond_stack, temps)
+
+        def walk(stmts, fors, conds, temps):
+            temps = list(temps)
+            for s in stmts:
+                if isinstance(s, ast.Assign) and len(s.targets) == 1 and isinstance(s.targets[0], ast.Name) and fors:
+                    temps.append((s.targets[0].id, s.value))
+                if isinstance(s, ast.Expr) and isinstance(s.value, ast.Call) and isinstance(s.value.func, ast.Attribute) and \
+                        isinstance(s.value.func.value, ast.Name) and s.value.func.value.id == name:
+                    sites.append((s.value.func.attr, s.value, tuple(fors), tuple(conds), tuple(temps)))
+                elif isinstance(s, ast.Assign) and any(isinstance(t, ast.Subscript) and isinstance(t.value, ast.Name) and t.value.id == name for t in s.targets):
+                    sites.append(("setitem", s, tuple(fors), tuple(conds), tuple(temps)))
+                elif isinstance(s, (ast.AugAssign, ast.Delete)) and any(isinstance(x, ast.Name) and x.id == name for x in ast.walk(s)):
+                    sites.append(("other", s, tuple(fors), tuple(conds), tuple(temps)))
+                if isinstance(s, ast.For):
+                    walk(s.body, fors + [s], conds, temps)
+                    walk(s.orelse, fors, conds, temps)
+                elif isinstance(s, ast.If):
+                    walk(s.body, fors, conds + [(s.test, True)], temps)
+                    walk(s.orelse, fors, conds + [(s.test, False)], temps)
+                elif isinstance(s, (ast.While, ast.With, ast.Try)):
+                    for fld in ("body", "orelse", "finalbody"):
+                        walk(getattr(s, fld, []) or [], fors + ["?"], conds, temps)
+                    for h in getattr(s, "handlers", []) or []:
+                        walk(h.body, fors + ["?"], conds, temps)
+        walk(self.fn.body, [], [], [])
+        if not sites or any(len(f) != 1 or f[0] == "?" for _, _, f, _, _ in sites):
+            return None
+        loop = sites[0][2][0]
+        if any(f[0] is not loop for _, _, f, _, _ in sites):
+            return None
+        ln = self.cfg.by_stmt.get(id(loop))
+        if ln is None or ln not in self.cfg.reach(defnode) or (use is not None and use not in self.cfg.reach(ln)):
+            return None
+        if use is not None and use in self.cfg.loop_body_nodes(ln):
+            return None                       # used while still being built
+        if is_list and not all(k == "append" and len(c.args) == 1 for k, c, *_ in sites):
+            return None
+        if is_dict and not all(k == "setitem" for k, *_ in sites):
+            return None
+        import copy as _copy
+
+        def subst(e, temps):
+            e = _copy.deepcopy(e)
+            for nm, val in reversed(temps):
+                class T(ast.NodeTransformer):
+                    def visit_Name(self, x):
+                        if x.id == nm and isinstance(x.ctx, ast.Load):
+                            return _copy.deepcopy(val)
+                        return x
+                e = T().visit(e)
+            return e
+
+        def cond_of(conds, temps):
+            parts = []
+            for t, lab in conds:
+                t2 = subst(t, temps)
+                parts.append(t2 if lab else ast.UnaryOp(op=ast.Not(), operand=t2))
+            return parts
+
+        def elt_of(site):
+            k, c, _, _, temps = site
+            if is_list:
+                return subst(c.args[0], temps), None
+            tgt = [t for t in c.targets if isinstance(t, ast.Subscript)][0]
+            return subst(c.value, temps), subst(tgt.slice, temps)
+        gen_ifs = []
+        if len(sites) == 1:
+            v, key = elt_of(sites[0])
+            gen_ifs = cond_of(sites[0][3], sites[0][4])
+        elif len(sites) == 2 and len(sites[0][3]) == 1 and len(sites[1][3]) == 1 and sites[0][3][0][0] is sites[1][3][0][0] \
+                and sites[0][3][0][1] != sites[1][3][0][1]:
+            a, b = (sites[0], sites[1]) if sites[0][3][0][1] else (sites[1], sites[0])
+            (va, ka), (vb, kb) = elt_of(a), elt_of(b)
+            test = subst(a[3][0][0], a[4])
+            v = ast.IfExp(test=test, body=va, orelse=vb)
+            key = ka if is_dict and ka is not None and kb is not None and ast.dump(ka) == ast.dump(kb) else (None if is_list else False)
+            if key is False:
+                return None
+        else:
+            return None
+        gen = ast.comprehension(target=_copy.deepcopy(loop.target), iter=_copy.deepcopy(loop.iter), ifs=gen_ifs, is_async=0)
+        comp = ast.ListComp(elt=v, generators=[gen]) if is_list else ast.DictComp(key=key, value=v, generators=[gen])
+        return ast.fix_missing_locations(ast.copy_location(comp, loop))
 
     def used_defs(self, expr, node, _seen=None):
         """transitive set of (name, defnode) of local definitions the value of expr at node depends on."""
